@@ -123,6 +123,6 @@ PROP = Prop(
           "the setters); from_labels == direct construction from the split; label translations "
           "mutually inverse on all four values. Non-trivial = rejected, or accepted with both "
           "classes non-empty and a score exactly 0 or 1."),
-    clauses=[Clause("fraud_view", check, strategy=_cases(), quick=500, thorough=2500, quick_shards=4,
+    clauses=[Clause("fraud_view", check, strategy=_cases(), quick=500, thorough=12500, quick_shards=4,
                     min_nontrivial=200, doc="validation iff out of range; differential vs Scores")],
 )
